@@ -324,6 +324,22 @@ func csvProp[T any](name string, genRow func(t *rapid.T, excluded *int) T) engin
 				o.Failf("%s: after permuting the columns by %v and inserting %d foreign column(s): %s\nfile:\n%s", name, c.Perm, c.Extra, msg, buf.String())
 				return o
 			}
+			// 1b. the same codec instance, after having read that shuffled file, writes rows that read back identically
+			reused := codec2[T]()
+			_ = helper.ChanToSlice(reused.ReadFromReader(bytes.NewReader(buf.Bytes())))
+			rpath := filepath.Join(dir, "reused.csv")
+			if err := reused.WriteToFile(rpath, helper.SliceToChan(ptrs(c.Rows))); err != nil {
+				o.Failf("%s: WriteToFile with a codec that has read a file with columns permuted by %v: %v", name, c.Perm, err)
+				return o
+			}
+			if ch, err := helper.ReadFromCsvFile[T](rpath, true); err != nil {
+				o.Failf("%s: ReadFromCsvFile: %v", name, err)
+				return o
+			} else if msg := equalRows(helper.ChanToSlice(ch), c.Rows); msg != "" {
+				content, _ := os.ReadFile(rpath)
+				o.Failf("%s: rows written by a codec instance that had first read a file with columns permuted by %v (+%d foreign): %s\nfile:\n%s", name, c.Perm, c.Extra, msg, content)
+				return o
+			}
 			// 2. file history against a list model
 			_ = os.Remove(path)
 			var model []T
